@@ -31,7 +31,7 @@ def call_rules(run, r_call, r_final, u):
             continue
         for i in f.all_insts():
             if i.op in ("call", "invoke") and i.callee and re.search(r"fast_perfect_hash<.*>::hash_type_id\(", i.callee) and ("<%s>" % witness.POLICIES[P].replace("policy::", "yorel::yomm2::policy::")) in i.callee.replace(" ", ""):
-                run.instance(r_call, "unchecked hash call in %s" % f.dname[:120], i.where(), ok=False)
+                run.instance(r_call, "unchecked hash call in %s" % f.dname, i.where(), ok=False)
                 run.violation(r_call, "%s|calls-unchecked-hash" % re.sub(r"<.*", "", irq.strip_ret(f.dname)), "%s calls the unchecked fast_perfect_hash::hash_type_id under a checked policy" % f.dname[:160], i.where())
     # final
     for f in fns["final"]:
@@ -130,6 +130,6 @@ def abort_rule(run, rule, u):
         if not re.search(r"checked_perfect_hash<.*>::hash_type_id|virtual_ptr<.*>::final<|compiler<.*>::augment_(classes|methods)", f.dname):
             continue
         ok, bad = path.after_call_reaches(f, call, lambda i: i.op in ("call", "invoke") and i.get("callee") == "abort")
-        run.instance(rule, "%s: abort after the report" % re.sub(r"yorel::yomm2::", "", irq.strip_ret(f.dname))[:140], call.where(), ok=ok)
+        run.instance(rule, "%s: abort after the report" % re.sub(r"yorel::yomm2::", "", irq.strip_ret(f.dname)), call.where(), ok=ok)
         if not ok:
             run.violation(rule, "%s|no-abort" % c02.site_key(f), "after reporting the error, %s can return (line %s) and the caller goes on to read a table" % (f.dname[:140], bad.line), call.where())
